@@ -8,6 +8,8 @@ import (
 
 // normPresence adds, for every leaf, the presence containers above it (a
 // presence container with content exists whether or not it was set explicitly).
+func NormPresence(c Conf) Conf { return normPresence(c) }
+
 func normPresence(c Conf) Conf {
 	r := c.Clone()
 	for k := range c {
@@ -77,8 +79,21 @@ func (m *Model) touchedScopes() map[string]bool {
 }
 
 func CheckConvergenceConf(m *Model, devRaw Conf, where string) *Failure {
+	return CheckConvergencePfx("C01", m, devRaw, where)
+}
+
+// CheckConvergencePfx is the convergence oracle with a signature prefix (C01, C08, C07 ...).
+func CheckConvergencePfx(pfx string, m *Model, devRaw Conf, where string) *Failure {
+	f := checkConvergence(m, devRaw, where)
+	if f != nil && pfx != "C01" {
+		f.Sig = pfx + strings.TrimPrefix(f.Sig, "C01")
+	}
+	return f
+}
+
+func checkConvergence(m *Model, devRaw Conf, where string) *Failure {
 	dev := normPresence(devRaw)
-	merge := normPresence(m.Merge())
+	merge := normPresence(m.Expected())
 	// (A) every path defined by a live intent carries the winner's value
 	for _, p := range merge.SortedKeys() {
 		got, ok := dev[p]
@@ -128,7 +143,9 @@ func CheckConvergenceConf(m *Model, devRaw Conf, where string) *Failure {
 			}
 		}
 		sig := "C01:B:stale-leaf"
-		if ip.IsKeyLeaf() {
+		if len(m.Definers(p)) > 0 {
+			sig = "C01:B:losing-case-node-present"
+		} else if ip.IsKeyLeaf() {
 			sig = "C01:B:stale-list-entry"
 		} else if ip.Node() != nil && ip.Node().Kind == KContainer {
 			sig = "C01:B:stale-presence-container"
